@@ -798,13 +798,13 @@ Section Rejects.
   Proof.
     intros Hrq Hrv Eq Ek Hax Hm1. apply forward_run_exc. intros mt st. apply call_body_exc.
     apply (check_input_rejects_dim expf d (flat q) (flat k) (flat v) mt dim qs ks sq' sk'); try assumption;
-      unfold flat; rewrite ?shp_mat, ?rshp_mat, ?rev_length; try assumption.
+      unfold flat; rewrite ?rshp_mat, ?shp_mat, ?rev_length; try assumption.
     unfold axis_pos in Hax.
     destruct ((1 - Z.of_nat (List.length (tshape k)) <=? dim)%Z
               && (0 <=? (if (dim <? 0)%Z then (dim + Z.of_nat (List.length (tshape k)))%Z else dim))%Z
               && ((if (dim <? 0)%Z then (dim + Z.of_nat (List.length (tshape k)))%Z else dim)
                   <? Z.of_nat (List.length (tshape k)) - 1)%Z) eqn:B; [discriminate|].
-    revert B. destruct (dim <? 0)%Z eqn:N; intros B. all: match goal with |- ?g => idtac g end. all: lia.
+    revert B. destruct (dim <? 0)%Z eqn:N; intros B; lia.
   Qed.
 
   (* the batch shapes of query.unsqueeze(dim) and key do not broadcast *)
@@ -820,7 +820,7 @@ Section Rejects.
     rewrite unsq_shape, Eq, Ek in Hb. replace p with (S (p - 1)) in Hb by lia. rewrite ins_S in Hb. cbn [tl] in Hb.
     apply (check_input_rejects_bcast expf d (flat q) (flat k) (flat v) mt dim qs ks sq' sk'
              (runsq p (mat q)) (ins (p - 1) 1 sq')); try assumption;
-      unfold flat; rewrite ?shp_mat, ?rshp_mat, ?rev_length; try assumption.
+      unfold flat; rewrite ?rshp_mat, ?shp_mat, ?rev_length; try assumption.
     - apply (axis_pos_range _ _ _ Hax).
     - apply (unsqueeze_query_raw q k dim p Hax Hrq).
     - rewrite rshp_runsq, rshp_mat, Eq. replace p with (S (p - 1)) at 1 by lia. rewrite ins_S. reflexivity.
